@@ -125,6 +125,13 @@ def run(prop, case, exception_is_violation=False):
         for clause, msg in found:
             viol.append(V(clause, f"{MC.describe_case(case)} :: {msg}"))
         out['counters']['annotated_atoms_checked'] = seen
+    if prop == 'C02' and res['steps'] and case['kind'] in ('cut', 'virtual') and case.get('truth') and not res['error']:
+        # the copies taken together are the molecule that was cut: same reference as C01 (generator ground truth), so that a
+        # fragment reader or library that hands the resolver the WRONG definition cannot hide behind its own templates
+        from ..gen import mol as M_
+        heavy, problems = M_.collapse_h(res['steps'][-1][1])
+        if problems or not M_.same_molecule(heavy, MC.truth_from_json(case['truth'])):
+            viol.append(V('c02.copy_differs_from_definition', f"{MC.describe_case(case)} :: the copies do not add up to the molecule whose fragments were written: {M_.describe(heavy)} {problems}"))
     if prop == 'C02' and res['steps'] and case['kind'] == 'coarse_cut' and case.get('truth'):
         # 'same internal bonds and bond orders' as the fragment DEFINED under the node's name: the bead graph the
         # generator cut into these fragments is the independent reference (the contract alone compares with what the
@@ -133,7 +140,7 @@ def run(prop, case, exception_is_violation=False):
         if not MC.coarse_result_matches(aa, MC.coarse_truth(case['truth'])):
             viol.append(V('c02.copy_differs_from_definition', f"{MC.describe_case(case)} :: the resolved bead graph (names, bonds, bond orders) is not the graph whose fragments were written: "
                           f"{sorted((min(a, b), max(a, b), d.get('order')) for a, b, d in aa.edges(data=True))}"))
-    if prop == 'C03' and res['steps'] and case['kind'] in ('cut', 'virtual', 'coarse_cut'):
+    if prop == 'C03' and res['steps'] and case['kind'] in ('cut', 'virtual', 'coarse_cut') and 'surplus_edge_order' not in case.get('features', ()):
         # these workloads write one dedicated, uniquely labelled pair per unit of base-edge order:
         # 'exactly that many' bonds must exist between the two coarse nodes
         cg, aa = res['steps'][0]
